@@ -99,9 +99,11 @@ func VerifC14Loader() {
 	verifrt.Reach("loaded")
 }
 
-// vArchiveRun archives an ObjectSet whose single object X exists and is controlled by it, through the real
-// controller wiring, and reports the deletes it issued and the Archived status it wrote.
-func vArchiveRun(sliced bool, deleting bool) (deletes []string, archived string, finalizerRemoved bool, err error) {
+// vArchiveRun tears down (deletes or archives) an ObjectSet through the real controller wiring and reports the deletes
+// it issued and the Archived status it wrote. The phase lists the objects x0..x(n-1), each existing and controlled
+// by the ObjectSet; sliced: every object sits in a slice of its own, and slice k may already be gone (its object is
+// then unknown to the ObjectSet and is not part of the comparison).
+func vArchiveRun(sliced bool, deleting bool, present []bool) (deletes []string, archived string, finalizerRemoved bool, err error) {
 	ctl, c, _, uncached, _ := vC11Setup(true)
 	os := &corev1alpha1.ObjectSet{}
 	os.Name, os.Namespace, os.UID = "me", "ns", "uid-me"
@@ -114,27 +116,35 @@ func vArchiveRun(sliced bool, deleting bool) (deletes []string, archived string,
 	} else {
 		os.Spec.LifecycleState = corev1alpha1.ObjectSetLifecycleStateArchived
 	}
-	x := vNamedCM("x")
 	ph := corev1alpha1.ObjectSetTemplatePhase{Name: "p"}
-	if sliced {
-		sl := &corev1alpha1.ObjectSlice{}
-		sl.Name, sl.Namespace = "s0", "ns"
-		sl.Objects = []corev1alpha1.ObjectSetObject{x}
-		sl.OwnerReferences = []metav1.OwnerReference{{APIVersion: "package-operator.run/v1alpha1", Kind: "ObjectSet", Name: "me", UID: "uid-me"}}
-		c.Put(sl)
-		ph.Slices = []string{"s0"}
-	} else {
-		ph.Objects = []corev1alpha1.ObjectSetObject{x}
+	t := true
+	for k, here := range present {
+		name := "x" + strconv.Itoa(k)
+		x := vNamedCM(name)
+		if sliced {
+			ph.Slices = append(ph.Slices, "s"+strconv.Itoa(k))
+		}
+		if !here {
+			continue
+		}
+		if sliced {
+			sl := &corev1alpha1.ObjectSlice{}
+			sl.Name, sl.Namespace = "s"+strconv.Itoa(k), "ns"
+			sl.Objects = []corev1alpha1.ObjectSetObject{x}
+			sl.OwnerReferences = []metav1.OwnerReference{{APIVersion: "package-operator.run/v1alpha1", Kind: "ObjectSet", Name: "me", UID: "uid-me"}}
+			c.Put(sl)
+		} else {
+			ph.Objects = append(ph.Objects, x)
+		}
+		live := x.Object.DeepCopy()
+		live.SetNamespace("ns")
+		live.SetUID(types.UID("uid-" + name))
+		live.SetResourceVersion("9")
+		live.SetOwnerReferences([]metav1.OwnerReference{{APIVersion: "package-operator.run/v1alpha1", Kind: "ObjectSet", Name: "me", UID: "uid-me", Controller: &t}})
+		uncached.Put(live)
 	}
 	os.Spec.Phases = []corev1alpha1.ObjectSetTemplatePhase{ph}
 	c.Put(os)
-	live := x.Object.DeepCopy()
-	live.SetNamespace("ns")
-	live.SetUID("uid-x")
-	live.SetResourceVersion("9")
-	t := true
-	live.SetOwnerReferences([]metav1.OwnerReference{{APIVersion: "package-operator.run/v1alpha1", Kind: "ObjectSet", Name: "me", UID: "uid-me", Controller: &t}})
-	uncached.Put(live)
 	_, err = ctl.Reconcile(context.Background(), ctrl.Request{NamespacedName: types.NamespacedName{Namespace: "ns", Name: "me"}})
 	for _, call := range c.Calls {
 		if !call.IsRealWrite() {
@@ -154,12 +164,25 @@ func vArchiveRun(sliced bool, deleting bool) (deletes []string, archived string,
 	return
 }
 
-// VerifC14Teardown: an ObjectSet that references slices tears down exactly like the same ObjectSet with the objects inline.
+// VerifC14Teardown: an ObjectSet that references slices tears down exactly like the same ObjectSet with the objects
+// inline - also when some of the referenced slices are already gone.
 func VerifC14Teardown() {
 	deleting := verifrt.Bool("deleting") // deleted, or archived
-	d1, a1, f1, e1 := vArchiveRun(false, deleting)
-	d2, a2, f2, e2 := vArchiveRun(true, deleting)
-	verifrt.Assert(len(d1) == 1 && d1[0] == "x" && e1 == nil, "C14/inline-teardown-deletes-the-object")
+	n := verifrt.IntRange("nSlices", 1, verifrt.Bound("maxSlices", 3))
+	present := make([]bool, n)
+	nPresent := 0
+	for k := 0; k < n; k++ {
+		present[k] = verifrt.Bool("slice" + strconv.Itoa(k) + ".present")
+		if present[k] {
+			nPresent++
+		}
+	}
+	d1, a1, f1, e1 := vArchiveRun(false, deleting, present)
+	d2, a2, f2, e2 := vArchiveRun(true, deleting, present)
+	verifrt.Assert(len(d1) == nPresent && e1 == nil, "C14/inline-teardown-deletes-the-objects")
+	if nPresent > 0 {
+		verifrt.Assert(!f1 && a1 != "True", "C04/finalizer-held-while-controlled-objects-remain")
+	}
 	same := len(d1) == len(d2)
 	for k := 0; k < len(d1) && k < len(d2); k++ {
 		if d1[k] != d2[k] {
